@@ -574,17 +574,54 @@ func MainC04(args []string) int {
 			}
 		}
 		// sum-compensating pairs inside block data: adjacent and distant positions
-		var dataPos []int
+		var dataPos, blkPos []int
 		pos := dataStart
 		for pos < b-2 {
 			n := int(stream[pos+1])
 			if n == 0 {
 				n = 256
 			}
+			blkPos = append(blkPos, pos)
 			for k := 0; k < n; k++ {
 				dataPos = append(dataPos, pos+2+k)
 			}
 			pos += 2 + n
+		}
+		// edits that keep every block well formed and the 8-bit sum intact but change the number of payload bytes: the
+		// declared compressed length no longer holds (and, except for surplus after the last genuine byte, the CRC)
+		if len(blkPos) > 0 && len(dataPos) > 8 {
+			eot := b - 2
+			last := blkPos[len(blkPos)-1]
+			ln := int(stream[last+1])
+			add(&Fault{AltKind: "edit", InsAt: map[int][]int{eot: {2, 1, 0}}}, "len-surplus-block")
+			add(&Fault{AltKind: "edit", InsAt: map[int][]int{eot: {2, 2, 1, 0xff}}}, "len-surplus-block")
+			add(&Fault{AltKind: "edit", InsAt: map[int][]int{eot: {2, 3, 0x80, 0x7f, 1}}}, "len-surplus-block")
+			if ln > 0 && ln < 255 {
+				add(&Fault{AltKind: "edit", InsAt: map[int][]int{eot: {0}}, Set: map[int]int{last + 1: ln + 1}}, "len-surplus-byte")
+			}
+			if len(blkPos) > 1 {
+				add(&Fault{AltKind: "edit", InsAt: map[int][]int{blkPos[1]: {2, 1, 0}}}, "len-surplus-middle")
+				add(&Fault{AltKind: "edit", InsAt: map[int][]int{blkPos[0]: {2, 2, 0xfe, 2}}}, "len-surplus-front")
+			}
+			if ln > 1 {
+				// drop the last payload byte, its value added to another byte
+				d := int(stream[eot-1])
+				cp := dataPos[rng.Intn(len(dataPos)-2)]
+				add(&Fault{AltKind: "edit", DelAt: map[int]bool{eot - 1: true}, Set: map[int]int{last + 1: ln - 1, cp: (int(stream[cp]) + d) & 0xff}}, "len-short-byte")
+			}
+			if len(blkPos) > 1 {
+				// drop the whole last block, its sum added to a byte of the first block
+				sum := 0
+				del := map[int]bool{}
+				for o := last; o < eot; o++ {
+					del[o] = true
+					if o >= last+2 {
+						sum += int(stream[o])
+					}
+				}
+				cp := dataPos[rng.Intn(8)]
+				add(&Fault{AltKind: "edit", DelAt: del, Set: map[int]int{cp: (int(stream[cp]) + sum) & 0xff}}, "len-short-block")
+			}
 		}
 		// targeted, sum-compensated changes of the payload's own header: CRC field (bytes 0,1) and size field (bytes 2..5)
 		// set to chosen values, the 8-bit sum repaired at another data position
